@@ -13,11 +13,17 @@ def assoc (s : State) : Option Nat :=
   | none => s.recentEngine.join
 
 /-- Operations that neither end run `r` nor begin another one: registration, disconnect, aggregator restart, tag
-messages, and a repeated RunStartedMsg of `r` itself. -/
-def quiet (r : Nat) : Op → Bool
+messages, a repeated RunStartedMsg of `r` itself — and a crash of the aggregator process where the code writes the
+RecentEngines row with the run messages (`persistRunEvents`); where it does not, a crash is *not* harmless. -/
+def quiet (c : Cfg) (r : Nat) : Op → Bool
   | .register | .disconnect | .restart | .tags _ _ _ => true
+  | .crash => c.persistRunEvents
   | .start q => q == r
   | .stop _ => false
+
+/-- With `persistRunEvents`, the RecentEngines row of a registered engine always names its current run. -/
+def Sync (c : Cfg) (s : State) : Prop :=
+  c.persistRunEvents = true → ∀ m, s.mem = some m → s.recentEngine.join = m.run
 
 /-- Every run id the aggregator may resume has a plot log. -/
 structure WF (s : State) : Prop where
@@ -73,8 +79,8 @@ theorem valueRows_cases (s : State) (r t : Nat) :
     exact Or.inr ⟨i, rfl, idxOf?_get hi⟩
   · exact Or.inl rfl
 
-theorem persist_mem (s : State) (m : Mem) (t : Nat) :
-    ∃ m', (persist s m t).mem = some m' ∧ m'.run = m.run := by
+theorem persist_mem (c : Cfg) (s : State) (m : Mem) (t : Nat) :
+    ∃ m', (persist c s m t).mem = some m' ∧ m'.run = m.run := by
   unfold persist
   split
   · exact ⟨_, rfl, rfl⟩
@@ -86,39 +92,39 @@ theorem persist_mem (s : State) (m : Mem) (t : Nat) :
     (upsertTags m t st).lastPersisted = m.lastPersisted := by
   unfold upsertTags; split <;> rfl
 
-theorem tagsChanged_mem (s : State) (m : Mem) (x : Option Nat) (t : Nat) (st : Option Nat) (hm : s.mem = some m) :
-    ∃ m', (tagsChanged s m x t st).mem = some m' ∧ m'.run = m.run := by
+theorem tagsChanged_mem (c : Cfg) (s : State) (m : Mem) (x : Option Nat) (t : Nat) (st : Option Nat)
+    (hm : s.mem = some m) : ∃ m', (tagsChanged c s m x t st).mem = some m' ∧ m'.run = m.run := by
   unfold tagsChanged
   split
   · exact ⟨m, hm, rfl⟩
-  · obtain ⟨m', h1, h2⟩ := persist_mem s (upsertTags m t st) t
+  · obtain ⟨m', h1, h2⟩ := persist_mem c s (upsertTags m t st) t
     exact ⟨m', h1, by rw [h2]; simp⟩
 
-@[simp] theorem persist_recentEngine (s : State) (m : Mem) (t : Nat) :
-    (persist s m t).recentEngine = s.recentEngine := by
+@[simp] theorem persist_recentEngine (c : Cfg) (s : State) (m : Mem) (t : Nat) :
+    (persist c s m t).recentEngine = s.recentEngine := by
   unfold persist
   split
   · rfl
   · split <;> rfl
-@[simp] theorem persist_plotLogs (s : State) (m : Mem) (t : Nat) : (persist s m t).plotLogs = s.plotLogs := by
+@[simp] theorem persist_plotLogs (c : Cfg) (s : State) (m : Mem) (t : Nat) : (persist c s m t).plotLogs = s.plotLogs := by
   unfold persist
   split
   · rfl
   · split <;> rfl
-@[simp] theorem persist_recentRuns (s : State) (m : Mem) (t : Nat) : (persist s m t).recentRuns = s.recentRuns := by
+@[simp] theorem persist_recentRuns (c : Cfg) (s : State) (m : Mem) (t : Nat) : (persist c s m t).recentRuns = s.recentRuns := by
   unfold persist
   split
   · rfl
   · split <;> rfl
 
-@[simp] theorem tagsChanged_recentEngine (s : State) (m : Mem) (x : Option Nat) (t : Nat) (st : Option Nat) :
-    (tagsChanged s m x t st).recentEngine = s.recentEngine := by
+@[simp] theorem tagsChanged_recentEngine (c : Cfg) (s : State) (m : Mem) (x : Option Nat) (t : Nat) (st : Option Nat) :
+    (tagsChanged c s m x t st).recentEngine = s.recentEngine := by
   unfold tagsChanged; split <;> simp
-@[simp] theorem tagsChanged_plotLogs (s : State) (m : Mem) (x : Option Nat) (t : Nat) (st : Option Nat) :
-    (tagsChanged s m x t st).plotLogs = s.plotLogs := by
+@[simp] theorem tagsChanged_plotLogs (c : Cfg) (s : State) (m : Mem) (x : Option Nat) (t : Nat) (st : Option Nat) :
+    (tagsChanged c s m x t st).plotLogs = s.plotLogs := by
   unfold tagsChanged; split <;> simp
-@[simp] theorem tagsChanged_recentRuns (s : State) (m : Mem) (x : Option Nat) (t : Nat) (st : Option Nat) :
-    (tagsChanged s m x t st).recentRuns = s.recentRuns := by
+@[simp] theorem tagsChanged_recentRuns (c : Cfg) (s : State) (m : Mem) (x : Option Nat) (t : Nat) (st : Option Nat) :
+    (tagsChanged c s m x t st).recentRuns = s.recentRuns := by
   unfold tagsChanged; split <;> simp
 
 /-- the tick time a persisted row gets: the newest tick time among the tags the engine data holds after the message -/
@@ -140,9 +146,9 @@ theorem rowTime_eq (m : Mem) (t : Nat) (st : Option Nat) (h : st.isSome ∨ m.sy
     · simp [h]; omega
 
 /-- A tags message adds at most one value row, and only to a plot log of the engine's current run. -/
-theorem tagsChanged_values (s : State) (m : Mem) (x : Option Nat) (t : Nat) (st : Option Nat) :
-    (tagsChanged s m x t st).values = s.values ∨
-    ∃ i r, (tagsChanged s m x t st).values = s.values ++ [(i, rowTime m t st)] ∧ m.run = some r ∧
+theorem tagsChanged_values (c : Cfg) (s : State) (m : Mem) (x : Option Nat) (t : Nat) (st : Option Nat) :
+    (tagsChanged c s m x t st).values = s.values ∨
+    ∃ i r, (tagsChanged c s m x t st).values = s.values ++ [(i, rowTime m t st)] ∧ m.run = some r ∧
       s.plotLogs[i]? = some r := by
   unfold tagsChanged
   split
@@ -161,22 +167,55 @@ theorem tagsChanged_values (s : State) (m : Mem) (x : Option Nat) (t : Nat) (st 
 
 /-- The tags message of the current run is recorded when the persistence threshold is passed and the run has a
 plot log. -/
-theorem tagsChanged_recorded (s : State) (m : Mem) (r t : Nat) (st : Option Nat) (hr : m.run = some r)
-    (hl : r ∈ s.plotLogs) (hp : m.lastPersisted = none ∨ ∃ lp, m.lastPersisted = some lp ∧ lp < t) :
+theorem tagsChanged_recorded (c : Cfg) (s : State) (m : Mem) (r t : Nat) (st : Option Nat) (hr : m.run = some r)
+    (hl : r ∈ s.plotLogs) (hp : m.lastPersisted = none ∨ ∃ lp, m.lastPersisted = some lp ∧ lp + c.interval < t) :
     ∃ i, s.plotLogs[i]? = some r ∧
-      (tagsChanged s m (some r) t st).values = s.values ++ [(i, rowTime m t st)] := by
+      (tagsChanged c s m (some r) t st).values = s.values ++ [(i, rowTime m t st)] := by
   obtain ⟨i, hi, hg⟩ := idxOf?_of_mem hl
   refine ⟨i, hg, ?_⟩
   have hle := le_latestTime (upsertTags m t st) t
-  have hth : thresholdExceeded m.lastPersisted t = true := by
+  have hth : thresholdExceeded 0 m.lastPersisted t = true := by
     rcases hp with hp | ⟨lp, hp, hlt⟩
     · simp [thresholdExceeded, hp]
-    · simp [thresholdExceeded, hp, hlt]
-  have hth' : thresholdExceeded m.lastPersisted (latestTime (upsertTags m t st) t) = true := by
+    · simp only [thresholdExceeded, hp, decide_eq_true_eq]; omega
+  have hth' : thresholdExceeded c.interval m.lastPersisted (latestTime (upsertTags m t st) t) = true := by
     rcases hp with hp | ⟨lp, hp, hlt⟩
     · simp [thresholdExceeded, hp]
     · simp only [thresholdExceeded, hp, decide_eq_true_eq]; omega
   simp [tagsChanged, persist, hr, hth, hth', valueRows, hi, rowTime]
+
+/-! ### persistRow -/
+
+@[simp] theorem persistRow_mem (c : Cfg) (s : State) : (persistRow c s).mem = s.mem := by
+  unfold persistRow; split
+  · split <;> rfl
+  · rfl
+@[simp] theorem persistRow_plotLogs (c : Cfg) (s : State) : (persistRow c s).plotLogs = s.plotLogs := by
+  unfold persistRow; split
+  · split <;> rfl
+  · rfl
+@[simp] theorem persistRow_values (c : Cfg) (s : State) : (persistRow c s).values = s.values := by
+  unfold persistRow; split
+  · split <;> rfl
+  · rfl
+@[simp] theorem persistRow_recentRuns (c : Cfg) (s : State) : (persistRow c s).recentRuns = s.recentRuns := by
+  unfold persistRow; split
+  · split <;> rfl
+  · rfl
+/-- the row is left alone, or names the current run of the registered engine -/
+theorem persistRow_recentEngine (c : Cfg) (s : State) :
+    (persistRow c s).recentEngine = s.recentEngine ∨
+    (c.persistRunEvents = true ∧ ∃ m, s.mem = some m ∧ (persistRow c s).recentEngine = some m.run) := by
+  unfold persistRow
+  split
+  · rename_i hp
+    split
+    · rename_i m hm; exact Or.inr ⟨hp, m, hm, rfl⟩
+    · exact Or.inl rfl
+  · exact Or.inl rfl
+theorem persistRow_sync (c : Cfg) (s : State) (m : Mem) (hp : c.persistRunEvents = true) (hm : s.mem = some m) :
+    (persistRow c s).recentEngine = some m.run := by
+  simp [persistRow, hp, hm, storeRecentEngine]
 
 /-! ### createPlotLog / storeRecentRun -/
 
@@ -241,6 +280,54 @@ theorem storeRecentRun_fresh (c : Cfg) (s : State) (r : Nat) (h : r ∉ s.recent
     exact absurd (by simpa using hc.2) h
   · rfl
 
+/-! ### startRun -/
+
+theorem startRun_mem (c : Cfg) (s : State) (m : Mem) (r : Nat) (hm : s.mem = some m) :
+    ∃ m', (startRun c s m r).mem = some m' ∧ m'.run = some r := by
+  unfold startRun
+  split
+  · exact ⟨_, rfl, rfl⟩
+  · rename_i q hq
+    split
+    · rename_i e; exact ⟨m, hm, by rw [hq, e]⟩
+    · exact ⟨_, rfl, rfl⟩
+@[simp] theorem startRun_recentEngine (c : Cfg) (s : State) (m : Mem) (r : Nat) :
+    (startRun c s m r).recentEngine = s.recentEngine := by
+  unfold startRun; split
+  · rfl
+  · split <;> simp
+@[simp] theorem startRun_plotLogs (c : Cfg) (s : State) (m : Mem) (r : Nat) :
+    (startRun c s m r).plotLogs = s.plotLogs := by
+  unfold startRun; split
+  · rfl
+  · split <;> simp
+@[simp] theorem startRun_values (c : Cfg) (s : State) (m : Mem) (r : Nat) :
+    (startRun c s m r).values = s.values := by
+  unfold startRun; split
+  · rfl
+  · split <;> simp
+theorem startRun_same (c : Cfg) (s : State) (m : Mem) (r : Nat) (h : m.run = some r) : startRun c s m r = s := by
+  simp [startRun, h]
+/-- starting a run stores at most the previous run: the rows of any run id that is not the previous run are untouched -/
+theorem startRun_count (c : Cfg) (s : State) (m : Mem) (r r' : Nat) (h : m.run ≠ some r') :
+    (startRun c s m r).recentRuns.count r' = s.recentRuns.count r' := by
+  unfold startRun
+  split
+  · rfl
+  · rename_i q hq
+    split
+    · rfl
+    · exact storeRecentRun_count_ne c s q r' (by intro e; exact h (by rw [hq, e]))
+theorem startRun_count_self (c : Cfg) (s : State) (m : Mem) (r : Nat) :
+    (startRun c s m r).recentRuns.count r = s.recentRuns.count r := by
+  unfold startRun
+  split
+  · rfl
+  · rename_i q hq
+    split
+    · rfl
+    · rename_i hne; exact storeRecentRun_count_ne c s q r hne
+
 /-! ### steps -/
 
 theorem join_eq_some {x : Option (Option Nat)} {r : Nat} (h : x.join = some r) : x = some (some r) := by
@@ -250,9 +337,65 @@ theorem join_eq_some {x : Option (Option Nat)} {r : Nat} (h : x.join = some r) :
     | none => simp at h
     | some q => simp at h; simp [h]
 
+/-- the row names the current run of a registered engine (where the code writes it with the run messages) — preserved
+by every operation -/
+theorem sync_step (c : Cfg) (s : State) (op : Op) (h : Sync c s) : Sync c (step c s op).1 := by
+  intro hp m' hm'
+  cases op with
+  | register =>
+    cases hm : s.mem with
+    | some m => simp only [step, hm] at hm' ⊢; exact h hp m' (by rw [hm]; exact hm')
+    | none =>
+      simp only [step, hm, Option.some.injEq] at hm' ⊢
+      subst hm'
+      unfold restored
+      split
+      · rename_i r hr; simp [hr]
+      · rename_i hn
+        cases hre : s.recentEngine with
+        | none => simp
+        | some y => cases y with
+          | none => simp
+          | some r => exact absurd hre (hn r)
+  | disconnect => cases hm : s.mem <;> simp [step, hm] at hm'
+  | restart => cases hm : s.mem <;> simp [step, hm] at hm'
+  | crash => simp [step] at hm'
+  | start r =>
+    cases hm : s.mem with
+    | none => simp [step, hm] at hm'
+    | some m =>
+      simp only [step, hm, persistRow_mem, createPlotLog_mem] at hm' ⊢
+      have := persistRow_sync c (createPlotLog c (startRun c s m r) r) m' hp (by simpa using hm')
+      rw [this]; simp
+  | stop r =>
+    cases hm : s.mem with
+    | none => simp [step, hm] at hm'
+    | some m =>
+      simp only [step, hm] at hm' ⊢
+      cases hr : m.run with
+      | none =>
+        simp only [hr] at hm' ⊢
+        first | exact h hp m' hm' | exact h hp m' (by rw [hm]; exact hm')
+      | some q =>
+        simp only [hr, persistRow_mem] at hm' ⊢
+        have := persistRow_sync c { storeRecentRun c s q with mem := some { m with run := none, lastPersisted := none } }
+          m' hp hm'
+        rw [this]; simp
+  | tags x t st =>
+    cases hm : s.mem with
+    | none => simp [step, hm] at hm'
+    | some m =>
+      simp only [step, hm] at hm' ⊢
+      obtain ⟨m'', h1, h2⟩ := tagsChanged_mem c s m x t st hm
+      rw [h1] at hm'
+      simp only [Option.some.injEq] at hm'
+      subst hm'
+      simp only [tagsChanged_recentEngine]
+      rw [h2]; exact h hp m hm
+
 /-- A quiet operation keeps the run associated with the engine. -/
-theorem assoc_step_quiet (c : Cfg) (s : State) (op : Op) (r : Nat) (ha : assoc s = some r)
-    (hq : quiet r op = true) : assoc (step c s op).1 = some r := by
+theorem assoc_step_quiet (c : Cfg) (s : State) (op : Op) (r : Nat) (hs : Sync c s) (ha : assoc s = some r)
+    (hq : quiet c r op = true) : assoc (step c s op).1 = some r := by
   cases op with
   | register =>
     cases hm : s.mem with
@@ -269,30 +412,39 @@ theorem assoc_step_quiet (c : Cfg) (s : State) (op : Op) (r : Nat) (ha : assoc s
     cases hm : s.mem with
     | some m => simp [step, hm, assoc, storeRecentEngine] at ha ⊢; exact ha
     | none => simp [step, hm, assoc] at ha ⊢; exact ha
+  | crash =>
+    have hp : c.persistRunEvents = true := by simpa [quiet] using hq
+    cases hm : s.mem with
+    | some m =>
+      simp only [assoc, hm] at ha
+      simp only [step, assoc]
+      rw [hs hp m hm]; exact ha
+    | none => simp [step, hm, assoc] at ha ⊢; exact ha
   | start q =>
     have hqr : q = r := by simpa [quiet] using hq
     subst hqr
     cases hm : s.mem with
     | none => simp [step, hm, assoc] at ha ⊢; exact ha
     | some m =>
-      simp only [assoc, hm] at ha
-      simp [step, hm, ha, assoc]
+      obtain ⟨m', h1, h2⟩ := startRun_mem c s m q hm
+      simp [step, hm, assoc, h1, h2]
   | stop q => simp [quiet] at hq
   | tags x t st =>
     cases hm : s.mem with
     | none => simp [step, hm, assoc] at ha ⊢; exact ha
     | some m =>
       simp only [assoc, hm] at ha
-      obtain ⟨m', h1, h2⟩ := tagsChanged_mem s m x t st hm
+      obtain ⟨m', h1, h2⟩ := tagsChanged_mem c s m x t st hm
       simp [step, hm, assoc, h1, h2, ha]
 
 /-- A quiet operation stores no recent run. -/
 theorem recentRuns_step_quiet (c : Cfg) (s : State) (op : Op) (r : Nat) (ha : assoc s = some r)
-    (hq : quiet r op = true) : (step c s op).1.recentRuns = s.recentRuns := by
+    (hq : quiet c r op = true) : (step c s op).1.recentRuns = s.recentRuns := by
   cases op with
   | register => cases hm : s.mem <;> simp [step, hm]
   | disconnect => cases hm : s.mem <;> simp [step, hm, storeRecentEngine]
   | restart => cases hm : s.mem <;> simp [step, hm, storeRecentEngine]
+  | crash => simp [step]
   | start q =>
     have hqr : q = r := by simpa [quiet] using hq
     subst hqr
@@ -300,9 +452,23 @@ theorem recentRuns_step_quiet (c : Cfg) (s : State) (op : Op) (r : Nat) (ha : as
     | none => simp [step, hm]
     | some m =>
       simp only [assoc, hm] at ha
-      simp [step, hm, ha]
+      simp [step, hm, startRun_same c s m q ha]
   | stop q => simp [quiet] at hq
   | tags x t st => cases hm : s.mem <;> simp [step, hm]
+
+theorem wf_persistRow (c : Cfg) (s : State) (w : WF s) : WF (persistRow c s) := by
+  refine ⟨?_, ?_⟩
+  · intro m r h1 h2
+    simp only [persistRow_mem] at h1
+    simp only [persistRow_plotLogs]
+    exact w.memLog m r h1 h2
+  · intro r h
+    simp only [persistRow_plotLogs]
+    rcases persistRow_recentEngine c s with e | ⟨_, m, hm, e⟩
+    · rw [e] at h; exact w.rowLog r h
+    · rw [e] at h
+      simp only [Option.some.injEq] at h
+      exact w.memLog m r hm h
 
 /-- Every run the aggregator may resume has a plot log — preserved by every operation. -/
 theorem wf_step (c : Cfg) (s : State) (op : Op) (w : WF s) : WF (step c s op).1 := by
@@ -341,46 +507,31 @@ theorem wf_step (c : Cfg) (s : State) (op : Op) (w : WF s) : WF (step c s op).1 
       simp only [Option.some.injEq] at h
       exact w.memLog m r hm h
     | none => simpa [step, hm] using w
+  | crash =>
+    simp only [step]
+    exact ⟨by intro m' r h; simp at h, w.rowLog⟩
   | start q =>
     cases hm : s.mem with
     | none => simpa [step, hm] using w
     | some m =>
       simp only [step, hm]
-      cases hr : m.run with
-      | none =>
-        simp only
-        refine ⟨?_, ?_⟩
-        · intro m' r h1 h2
-          simp only [createPlotLog_mem, Option.some.injEq] at h1
-          subst h1
-          simp only [Option.some.injEq] at h2
-          subst h2
-          exact createPlotLog_mem_self _ _ _
-        · intro r h
-          simp only [createPlotLog_recentEngine] at h
-          exact createPlotLog_mono _ _ _ _ (w.rowLog r h)
-      | some q' =>
-        simp only
-        split
-        · refine ⟨?_, ?_⟩
-          · intro m' r h1 h2
-            simp only [createPlotLog_mem] at h1
-            exact createPlotLog_mono _ _ _ _ (w.memLog m' r h1 h2)
-          · intro r h
-            simp only [createPlotLog_recentEngine] at h
-            exact createPlotLog_mono _ _ _ _ (w.rowLog r h)
-        · refine ⟨?_, ?_⟩
-          · intro m' r h1 h2
-            simp only [createPlotLog_mem, Option.some.injEq] at h1
-            subst h1
-            simp only [Option.some.injEq] at h2
-            subst h2
-            exact createPlotLog_mem_self _ _ _
-          · intro r h
-            simp only [createPlotLog_recentEngine, storeRecentRun_recentEngine] at h
-            apply createPlotLog_mono
-            simp only [storeRecentRun_plotLogs]
-            exact w.rowLog r h
+      apply wf_persistRow
+      obtain ⟨m', h1, h2⟩ := startRun_mem c s m q hm
+      refine ⟨?_, ?_⟩
+      · intro m'' r hm'' hr''
+        simp only [createPlotLog_mem] at hm''
+        rw [h1] at hm''
+        simp only [Option.some.injEq] at hm''
+        subst hm''
+        rw [h2] at hr''
+        simp only [Option.some.injEq] at hr''
+        subst hr''
+        exact createPlotLog_mem_self _ _ _
+      · intro r h
+        simp only [createPlotLog_recentEngine, startRun_recentEngine] at h
+        apply createPlotLog_mono
+        simp only [startRun_plotLogs]
+        exact w.rowLog r h
   | stop q =>
     cases hm : s.mem with
     | none => simpa [step, hm] using w
@@ -390,6 +541,7 @@ theorem wf_step (c : Cfg) (s : State) (op : Op) (w : WF s) : WF (step c s op).1 
       | none => simpa using w
       | some q' =>
         simp only
+        apply wf_persistRow
         refine ⟨?_, ?_⟩
         · intro m' r h1 h2
           simp only [Option.some.injEq] at h1
@@ -406,7 +558,7 @@ theorem wf_step (c : Cfg) (s : State) (op : Op) (w : WF s) : WF (step c s op).1 
       simp only [step, hm]
       refine ⟨?_, ?_⟩
       · intro m' r h1 h2
-        obtain ⟨m'', h3, h4⟩ := tagsChanged_mem s m x t st hm
+        obtain ⟨m'', h3, h4⟩ := tagsChanged_mem c s m x t st hm
         rw [h3] at h1
         simp only [Option.some.injEq] at h1
         subst h1
@@ -417,8 +569,19 @@ theorem wf_step (c : Cfg) (s : State) (op : Op) (w : WF s) : WF (step c s op).1 
         simp only [tagsChanged_plotLogs]
         exact w.rowLog r h
 
-/-- Once run `r` is over it stays over, and is never stored again, unless a RunStartedMsg names it again. -/
-theorem done_step (c : Cfg) (s : State) (op : Op) (r : Nat) (d : Done r s) (hne : op ≠ .start r) :
+theorem done_persistRow (c : Cfg) (s : State) (r : Nat) (d : Done r s) : Done r (persistRow c s) := by
+  refine ⟨?_, ?_⟩
+  · intro m h; simp only [persistRow_mem] at h; exact d.notCurrent m h
+  · intro h
+    simp only [persistRow_mem] at h
+    rcases persistRow_recentEngine c s with e | ⟨_, m, hm, _⟩
+    · rw [e]; exact d.notResumable h
+    · rw [hm] at h; cases h
+
+/-- Once run `r` is over it stays over, and is never stored again, unless a RunStartedMsg names it again (a crash of
+the aggregator only where the code keeps the RecentEngines row up to date). -/
+theorem done_step (c : Cfg) (s : State) (op : Op) (r : Nat) (hs : Sync c s) (d : Done r s) (hne : op ≠ .start r)
+    (hcr : op = .crash → c.persistRunEvents = true) :
     Done r (step c s op).1 ∧ (step c s op).1.recentRuns.count r = s.recentRuns.count r := by
   cases op with
   | register =>
@@ -455,40 +618,39 @@ theorem done_step (c : Cfg) (s : State) (op : Op) (r : Nat) (d : Done r s) (hne 
       simp only [Option.some.injEq] at h
       exact d.notCurrent m hm h
     | none => simp only [step, hm]; exact ⟨d, by first | rfl | trivial⟩
+  | crash =>
+    have hp := hcr rfl
+    simp only [step]
+    refine ⟨⟨by intro m' h; simp at h, ?_⟩, by first | rfl | trivial⟩
+    intro _ h
+    cases hm : s.mem with
+    | none => exact d.notResumable hm h
+    | some m =>
+      have hj := hs hp m hm
+      rw [h] at hj
+      simp only [Option.join_some] at hj
+      exact d.notCurrent m hm hj.symm
   | start q =>
     have hq : q ≠ r := by intro e; exact hne (by rw [e])
     cases hm : s.mem with
     | none => simp only [step, hm]; exact ⟨d, by first | rfl | trivial⟩
     | some m =>
-      simp only [step, hm]
-      cases hr : m.run with
-      | none =>
-        simp only [createPlotLog_recentRuns]
-        refine ⟨⟨?_, by intro h; simp at h⟩, by first | rfl | trivial⟩
-        intro m' h1 h2
-        simp only [createPlotLog_mem, Option.some.injEq] at h1
-        subst h1
-        simp only [Option.some.injEq] at h2
-        exact hq h2
-      | some q' =>
-        simp only
-        split
-        · simp only [createPlotLog_recentRuns]
-          refine ⟨⟨?_, ?_⟩, by first | rfl | trivial⟩
-          · intro m' h1
-            simp only [createPlotLog_mem] at h1
-            exact d.notCurrent m' h1
-          · intro h; simp [hm] at h
-        · simp only [createPlotLog_recentRuns]
-          have hq' : q' ≠ r := by
-            intro e
-            exact d.notCurrent m hm (by rw [hr, e])
-          refine ⟨⟨?_, by intro h; simp at h⟩, storeRecentRun_count_ne c s q' r hq'⟩
-          intro m' h1 h2
-          simp only [createPlotLog_mem, Option.some.injEq] at h1
-          subst h1
-          simp only [Option.some.injEq] at h2
-          exact hq h2
+      simp only [step, hm, persistRow_recentRuns, createPlotLog_recentRuns]
+      refine ⟨?_, startRun_count c s m q r (d.notCurrent m hm)⟩
+      apply done_persistRow
+      obtain ⟨m', h1, h2⟩ := startRun_mem c s m q hm
+      refine ⟨?_, ?_⟩
+      · intro m'' hm'' hr''
+        simp only [createPlotLog_mem] at hm''
+        rw [h1] at hm''
+        simp only [Option.some.injEq] at hm''
+        subst hm''
+        rw [h2] at hr''
+        simp only [Option.some.injEq] at hr''
+        exact hq hr''
+      · intro h
+        simp only [createPlotLog_mem] at h
+        rw [h1] at h; cases h
   | stop q =>
     cases hm : s.mem with
     | none => simp only [step, hm]; exact ⟨d, by first | rfl | trivial⟩
@@ -497,11 +659,13 @@ theorem done_step (c : Cfg) (s : State) (op : Op) (r : Nat) (d : Done r s) (hne 
       cases hr : m.run with
       | none => simp only; exact ⟨d, by first | rfl | trivial⟩
       | some q' =>
-        simp only
+        simp only [persistRow_recentRuns]
         have hq' : q' ≠ r := by
           intro e
           exact d.notCurrent m hm (by rw [hr, e])
-        refine ⟨⟨?_, by intro h; simp at h⟩, storeRecentRun_count_ne c s q' r hq'⟩
+        refine ⟨?_, storeRecentRun_count_ne c s q' r hq'⟩
+        apply done_persistRow
+        refine ⟨?_, by intro h; simp at h⟩
         intro m' h1 h2
         simp only [Option.some.injEq] at h1
         subst h1
@@ -513,13 +677,13 @@ theorem done_step (c : Cfg) (s : State) (op : Op) (r : Nat) (d : Done r s) (hne 
       simp only [step, hm, tagsChanged_recentRuns]
       refine ⟨⟨?_, ?_⟩, by first | rfl | trivial⟩
       · intro m' h1 h2
-        obtain ⟨m'', h3, h4⟩ := tagsChanged_mem s m x t st hm
+        obtain ⟨m'', h3, h4⟩ := tagsChanged_mem c s m x t st hm
         rw [h3] at h1
         simp only [Option.some.injEq] at h1
         subst h1
         exact d.notCurrent m hm (h4 ▸ h2)
       · intro h
-        obtain ⟨m'', h3, _⟩ := tagsChanged_mem s m x t st hm
+        obtain ⟨m'', h3, _⟩ := tagsChanged_mem c s m x t st hm
         rw [h3] at h
         simp at h
 
@@ -533,15 +697,8 @@ theorem values_step (c : Cfg) (s : State) (op : Op) :
   | register => cases hm : s.mem <;> simp [step, hm]
   | disconnect => cases hm : s.mem <;> simp [step, hm, storeRecentEngine]
   | restart => cases hm : s.mem <;> simp [step, hm, storeRecentEngine]
-  | start q =>
-    cases hm : s.mem with
-    | none => simp [step, hm]
-    | some m =>
-      left
-      simp only [step, hm, createPlotLog_values]
-      cases hr : m.run with
-      | none => rfl
-      | some q' => simp only; split <;> simp
+  | crash => simp [step]
+  | start q => cases hm : s.mem <;> simp [step, hm]
   | stop q =>
     cases hm : s.mem with
     | none => simp [step, hm]
@@ -554,7 +711,7 @@ theorem values_step (c : Cfg) (s : State) (op : Op) :
     | none => simp [step, hm]
     | some m =>
       simp only [step, hm]
-      rcases tagsChanged_values s m x t st with h | ⟨i, r, h1, h2, h3⟩
+      rcases tagsChanged_values c s m x t st with h | ⟨i, r, h1, h2, h3⟩
       · exact Or.inl h
       · exact Or.inr ⟨i, t, r, m, x, st, rfl, h1, rfl, h2, h3⟩
 
@@ -565,15 +722,14 @@ theorem plotLogs_step_get (c : Cfg) (s : State) (op : Op) (i q : Nat) (h : s.plo
   | register => cases hm : s.mem <;> simpa [step, hm] using h
   | disconnect => cases hm : s.mem <;> simpa [step, hm, storeRecentEngine] using h
   | restart => cases hm : s.mem <;> simpa [step, hm, storeRecentEngine] using h
+  | crash => simpa [step] using h
   | start r =>
     cases hm : s.mem with
     | none => simpa [step, hm] using h
     | some m =>
-      simp only [step, hm]
+      simp only [step, hm, persistRow_plotLogs]
       apply createPlotLog_get
-      cases hr : m.run with
-      | none => exact h
-      | some q' => simp only; split <;> simpa using h
+      simpa using h
   | stop r =>
     cases hm : s.mem with
     | none => simpa [step, hm] using h
